@@ -37,6 +37,7 @@ from mashumaro.core.meta.helpers import (
     get_function_return_annotation,
     get_literal_values,
     get_type_origin,
+    get_type_var_default,
     is_annotated,
     is_final,
     is_generic,
@@ -57,6 +58,7 @@ from mashumaro.core.meta.helpers import (
     is_unpack,
     resolve_type_params,
     type_name,
+    type_var_has_default,
 )
 from mashumaro.core.meta.types.common import NoneType
 from mashumaro.helper import pass_through
@@ -479,7 +481,10 @@ def on_special_typing_primitive(
                 ]
             )
         else:
-            bound = getattr(instance.type, "__bound__")
+            if type_var_has_default(instance.type):
+                bound = get_type_var_default(instance.type)
+            else:
+                bound = getattr(instance.type, "__bound__")
             return get_schema(instance.derive(type=bound), ctx)
     elif is_new_type(instance.type):
         return get_schema(
